@@ -120,6 +120,48 @@ Proof.
 Qed.
 
 (* ================================================================================================ *)
+(* header_only and get_parsed_instance on restyled files                                            *)
+(* ================================================================================================ *)
+(* header_only through every entry point on every restyling, relative to the full parse of the canonical text *)
+Theorem header_only_restyled_proof e c dt pads ls i : wf_pad pads = true -> Forall line_ok ls ->
+  parse_file_model c dt (mkFlags false false) (unlines ls) = Ok i ->
+  exists h, parse_entry e c dt (mkFlags false true) (restyle pads (unlines ls)) = Ok h /\
+            inst_empty h = true /\ header_agrees h i.
+Proof.
+  intros P L H. rewrite entrypoints_text_proof by assumption. unfold parse_file_model in *.
+  destruct (header_only_proof _ _ _ _ _ H) as [h [E [A [_ B]]]]. exists h. auto.
+Qed.
+
+Lemma header_agrees_ord h o : header_agrees h (IOrd o) -> h = header_of (IOrd o).
+Proof. destruct h; exact (fun H => H). Qed.
+
+Theorem header_only_ord e dt pads i : wf_ord i = true -> wf_pad pads = true -> type_validator COrd dt = true ->
+  parse_entry e COrd dt (mkFlags false true) (restyle pads (ord_write i)) = Ok (header_of (IOrd (OrdIO.sorted_view i))).
+Proof.
+  intros W P V. rewrite entrypoints_ord_flags by assumption.
+  assert (F : parse_file_model COrd dt (mkFlags false false) (ord_write i) = Ok (IOrd (OrdIO.sorted_view i))).
+  { unfold parse_file_model, parse_lines. rewrite V. unfold class_parse. cbn [autocorrect header_only].
+    now rewrite (PO.C01_roundtrip_proof i dt W). }
+  unfold parse_file_model in *. destruct (header_only_proof _ _ _ _ _ F) as [h [E [_ [_ B]]]].
+  rewrite E. f_equal. apply header_agrees_ord. now apply B.
+Qed.
+
+(* get_parsed_instance on the restyled file *)
+Theorem entrypoints_ord_get dt pads i : wf_ord i = true -> wf_pad pads = true -> type_validator COrd dt = true ->
+  get_parsed_instance_model dt (mkFlags false false) (restyle pads (ord_write i)) = Ok (IOrd (OrdIO.sorted_view i)).
+Proof.
+  intros W P V. rewrite (get_is_parse_file dt COrd) by (now apply dispatch_valid).
+  exact (entrypoints_ord EFile dt pads i W P V).
+Qed.
+
+Theorem entrypoints_wmd_get pads i : PW.wf_tok i -> wf_pad pads = true ->
+  get_parsed_instance_model (lit "wmd") (mkFlags false false) (restyle pads (wmd_write_tok i)) = Ok (IWmd (PW.reparsed text i)).
+Proof.
+  intros W P. rewrite (get_is_parse_file (lit "wmd") CWmd) by reflexivity.
+  exact (entrypoints_wmd EFile pads i W P).
+Qed.
+
+(* ================================================================================================ *)
 (* categorical                                                                                      *)
 (* ================================================================================================ *)
 (* what the written file needs to consist of proper lines: single-line header values and names (no line boundary,
